@@ -822,7 +822,7 @@ def main(tier, seed):
     quick = tier == "quick"
     rng = random.Random(seed * 7919 + 17)
     n_pool = 84 if quick else 600
-    n_hist = 220 if quick else 6000
+    n_hist = 150 if quick else 6000
     deadline = t0 + (200 if quick else 45 * 60)
     # ---- coverage-guided choice of base cfgs: draw many candidates, run each once under a
     # cheap line-coverage probe, and keep greedily those that reach repository lines no
@@ -969,7 +969,7 @@ def main(tier, seed):
                       "ops": ops, "pool": sub})
     # abort sweeps: cfgs chosen for coverage (they exercise the most distinct code) are
     # aborted in the middle of every stage, each abort followed by a normal run
-    sweep_bases = [cands[i] for i in picked[: (6 if quick else 40)]]
+    sweep_bases = [cands[i] for i in picked[: (4 if quick else 40)]]
     pool_keys = {corpus.cfg_key(c): i for i, c in enumerate(pool)}
     n_sweeps = 0
     for si, A in enumerate(sweep_bases):
@@ -979,7 +979,7 @@ def main(tier, seed):
         others = [A] + [pool[i] for i in fam if pool[i] is not A][:1] + [
             pool[matrix_idx[(si * 7) % len(matrix_idx)]]] if matrix_idx else [A]
         hists.append({"id": f"ha{si}", "kind": "c11.abort_sweep", "seed": seed * 1_000_003 + 5000 + si,
-                      "cfg": A, "others": others, "max_aborts": 40 if quick else 80,
+                      "cfg": A, "others": others, "max_aborts": 25 if quick else 80,
                       "ops": [None] * 80, "pool": []})
         n_sweeps += 1
     for fi, fam in enumerate(abort_fams):
@@ -987,7 +987,7 @@ def main(tier, seed):
             others = [pool[fam[(mi + d) % len(fam)]] for d in (1, 2, 3)] + [pool[ai]]
             hists.append({"id": f"ham{fi}_{mi}", "kind": "c11.abort_sweep",
                           "seed": seed * 1_000_003 + 7000 + fi * 50 + mi, "cfg": pool[ai],
-                          "others": others, "max_aborts": 36 if quick else 80,
+                          "others": others, "max_aborts": 20 if quick else 80,
                           "ops": [None] * 72, "pool": []})
             n_sweeps += 1
     # long jobs first
